@@ -111,7 +111,7 @@ def v_rules(schema: Schema, rep: Report):
         loops = [s for s in own_statements(fn) if isinstance(s, ast.For)]
         def in_order(it):
             # the arguments themselves, or map(f, args) - both walk them left to right
-            if text(it) == va:
+            if text(it) == va or text(it).replace(" ", "") in (f"tuple({va})", f"list({va})", f"{va}[:]", f"iter({va})"):
                 return True
             return isinstance(it, ast.Call) and isinstance(it.func, ast.Name) and it.func.id == "map" and len(it.args) == 2 and text(it.args[1]) == va
 
